@@ -7,6 +7,7 @@ package c17
 import (
 	"bytes"
 	"fmt"
+	"os"
 	"strconv"
 	"strings"
 	"time"
@@ -18,11 +19,21 @@ import (
 	"verif/harness/internal/core"
 )
 
-type prop struct{}
+type prop struct {
+	shortest map[string]string // failure class -> shortest failing case seen (evidence + witness mining)
+}
 
-func New() core.Prop { return prop{} }
+func New() core.Prop { return &prop{shortest: map[string]string{}} }
 
-func (prop) ID() string { return "C17" }
+func (*prop) ID() string { return "C17" }
+
+// Finish records, per failure class, the shortest failing input of this run.
+func (p *prop) Finish(s *core.Session) {
+	if s.Meta.Extra == nil {
+		s.Meta.Extra = map[string]any{}
+	}
+	s.Meta.Extra["shortest_failing_case_by_class"] = p.shortest
+}
 
 // ---------------------------------------------------------------- running the real code
 
@@ -151,10 +162,10 @@ func format(b []byte) (out []byte, ok bool) {
 	}
 }
 
-// outputBound is the bound proved in Props.fmt_output_bound: |Format x| ≤ 25·|x| + 1 (runes).
-const boundMul, boundAdd = 25, 1
+// outputBound is the bound proved in Props.fmt_output_bound: |Format x| ≤ 31·|x| + 1 (runes).
+const boundMul, boundAdd = 31, 1
 
-func (prop) Run(line string) core.Outcome {
+func (p *prop) Run(line string) core.Outcome {
 	f := strings.Fields(line)
 	if len(f) != 2 || f[0] != "rt" {
 		return core.Outcome{Impl: "bad-op"}
@@ -226,8 +237,23 @@ func (prop) Run(line string) core.Outcome {
 		o.Failures = append(o.Failures, core.Failure{Class: "output-size",
 			What: fmt.Sprintf("output has %d runes for %d input runes (bound %d·n+%d)", utf8.RuneCount(fx), utf8.RuneCount(x), boundMul, boundAdd)})
 	}
+	for _, fl := range o.Failures {
+		if old, ok := p.shortest[fl.Class]; !ok || len(line) < len(old) {
+			p.shortest[fl.Class] = line
+		}
+	}
+	if debugClass != "" {
+		for _, fl := range o.Failures {
+			if fl.Class == debugClass && len(xs) < 200 {
+				fmt.Fprintf(os.Stderr, "DEBUG %s %q\n      %s\n", fl.Class, xs, fl.What)
+			}
+		}
+	}
 	return o
 }
+
+// debugClass (env C17_DEBUG_CLASS) prints every failure of one class to stderr: a development aid.
+var debugClass = os.Getenv("C17_DEBUG_CLASS")
 
 // shapeProblem: Format's result is TrimSpace(..)+"\n".
 func shapeProblem(fx []byte) string {
